@@ -141,6 +141,22 @@ def skipDeclGo : List Tok → Nat → Option Nat
     else if (t = Tok.kw sDecltype || t = Tok.kw sTypeof) && r.head? = some Tok.lp then none
     else skipDeclGo r (k + 1)
 
+/-- the next token is a name (`Token::Match(tok->next(), "%name%")`) -/
+def nextIsName (r : List Tok) : Bool :=
+  match r.head? with
+  | some nx => nx.isName
+  | none => false
+
+/-- `Token::Match(tok->tokAt(-3), "!!& ) ( %name%")` seen from the name: the tokens before it -/
+def parenParenBefore : List Tok → Bool
+  | Tok.lp :: Tok.rp :: x :: _ => x != Tok.op ['&']
+  | _ => false
+
+/-- `%name% ) =`: the tokens behind the name -/
+def rpAssignAfter : List Tok → Bool
+  | Tok.rp :: Tok.op o :: _ => o = ['=']
+  | _ => false
+
 /-- compileTerm (= compileScope, `::` being outside the alphabet) -/
 def term (d : Nat) (st : St) : R :=
   match st.inp with
@@ -149,12 +165,12 @@ def term (d : Nat) (st : St) : R :=
     match t with
     | Tok.num s =>
       -- state.op.push(tok); do tok = tok->next(); while (Token::Match(tok, "%name%|%str%"));
-      if (match r.head? with | some nx => nx.isName | none => false) then .error (.outside 10)
+      if nextIsName r then .error (.outside 10)
       else .ok (st.next.push ⟨st.pos, .leaf s⟩)
     | Tok.kw _ => .error (.outside 11)
     | Tok.ty _ => .error (.outside 12)
     | Tok.var _ | Tok.fn _ =>
-      if (match r.head? with | some nx => nx.isName | none => false) then .error (.outside 13)   -- juxtaposed names
+      if nextIsName r then .error (.outside 13)   -- juxtaposed names
       else
         let jump : Option Nat := if st.pre.head? = some Tok.lp then skipDeclGo st.inp 0 else some 0
         match jump with
@@ -164,18 +180,11 @@ def term (d : Nat) (st : St) : R :=
           match st1.inp with
           | [] => .ok st1
           | t1 :: r1 =>
-            if (match r1.head? with | some nx => nx.isName | none => false) then .error (.outside 16)
+            if nextIsName r1 then .error (.outside 16)
             else
               let st2 := st1.push ⟨st1.pos, .leaf t1.str⟩
               -- `) ( %name% ) =` at the very start of a statement: one extra token is skipped
-              let extra : Bool :=
-                st2.stk.length == 1 && d == 0 &&
-                (match st1.pre with
-                 | Tok.lp :: Tok.rp :: x :: _ => x != Tok.op ['&']
-                 | _ => false) &&
-                (match r1 with
-                 | Tok.rp :: Tok.op o :: _ => o = ['=']
-                 | _ => false)
+              let extra : Bool := st2.stk.length == 1 && d == 0 && parenParenBefore st1.pre && rpAssignAfter r1
               .ok (if extra then st2.next.next else st2.next)
     | Tok.op s => if s = ['{'] || s = [':',':'] then .error (.outside 17) else .ok st
     | _ => .ok st
@@ -313,10 +322,53 @@ termination_by st.inp.length
 
 /-- createAstAtToken on an expression statement: a fresh AST_state, compileExpression from the first token -/
 def parse (L : Ladder) (cpp : Bool) (ts : List Tok) : R :=
-  if ts.all Tok.inAlphabet then expr L cpp 0 ⟨[], ts, []⟩ else .error (.outside 0)
+  if ts.all Tok.inAlphabet then expr L cpp 0 { pre := [], inp := ts, stk := [] } else .error (.outside 0)
 
 /-- the pipeline: prepareTernaryOpForAST (it runs twice in simplifyTokenList1), then createAst -/
 def astOf (L : Ladder) (cpp : Bool) (ts : List Tok) : R :=
   parse L cpp (prep (prep ts))
+
+/-! ### side conditions of the theorems (all decidable) -/
+
+/-- operator spellings a level table may use: not `? : ;`, nothing the operand level grabs first
+(`++ -- ... { } ::`), and a token after which a prefix operator is recognised as such -/
+def opOK (s : Str) : Bool :=
+  s != ['?'] && s != [':'] && s != [';'] && !isIncDecStr s && s != ['.','.','.'] && s != ['{'] && s != ['}'] &&
+  s != [':',':'] && prevSet (Tok.op s)
+
+def entryOK (e : Str × Guard) : Bool := opOK e.1 && (!e.2.binary || e.1 != ['.'])
+
+def allOps (ls : List Level) : List Str := ls.flatMap (fun lv => lv.ops.map Prod.fst)
+
+/-- the levels above compileAssignTernary only have `,`; below it every level is a left-associative loop -/
+def ternShape : List Level → Bool
+  | [] => false
+  | lv :: r =>
+    if lv.kind = .assignTernary then r.all (fun x => x.kind = .left)
+    else lv.ops.all (fun e => e.1 = [',']) && ternShape r
+
+/-- well-formed level table -/
+def Ladder.WF (L : Ladder) : Bool :=
+  decide (allOps L.levels).Nodup && L.levels.all (fun lv => lv.ops.all entryOK) && ternShape L.levels
+
+/-- no parenthesis is followed by something skipDecl takes for a declaration (`( a * b =`, `( a * b (` …) -/
+def PExpr.declOK : PExpr → Bool
+  | .var _ => true
+  | .num _ => true
+  | .paren e => declOK e && skipDeclGo (e.print ++ [Tok.rp]) 0 == some 0
+  | .bin _ l r => declOK l && declOK r
+  | .tern c t e => declOK c && declOK t && declOK e
+  | .pre _ e => declOK e
+  | .post _ e => declOK e
+  | .cast _ _ e => declOK e
+  | .index a i => declOK a && declOK i
+  | .member a _ => declOK a
+  | .call0 _ _ => true
+  | .call _ _ a => declOK a && skipDeclGo (a.print ++ [Tok.rp]) 0 == some 0
+
+/-- what may follow a complete expression: nothing, `)`, `]` or `;` -/
+def endOK : List Tok → Bool
+  | [] => true
+  | t :: _ => t == Tok.rp || t == Tok.rb || t == Tok.op [';']
 
 end Cppcheck.AstLadder
